@@ -92,7 +92,7 @@ func c17Cases(tier string, seed uint64) []fw.Case {
 		var cc c18Case
 		json.Unmarshal(c.Desc, &cc)
 		if cc.Link != "none" && cc.Link != "waitcatch" && cc.Hook == 0.5 && (cc.Waits == "three" || cc.Waits == "twice") {
-			if cc.Link == "fanin" {
+			if cc.Link == "fanin" || cc.Link == "fanstart" {
 				psets = append(psets, c, c) // several throws racing for one catch registration: weight it
 			}
 			psets = append(psets, c)
@@ -131,6 +131,12 @@ func c17Cases(tier string, seed uint64) []fw.Case {
 	// expression engines keep per text has grown, been trimmed or been rebuilt) and goes on compiling concurrently
 	for i := 0; i < 2; i++ {
 		cc := c17Case{Kind: "conditions", Width: 96, Procs: []int{16, 4}[i%2], Reps: reps * 2, Name: fmt.Sprintf("conditions-many/%d", i)}
+		cs = append(cs, fw.MkCase("conditions", &cc))
+	}
+	// and with 192 branches: several multiples of any plausible bound on what is kept per text are crossed in
+	// one process, each crossing with other tokens compiling at that moment
+	for i := 0; i < 2; i++ {
+		cc := c17Case{Kind: "conditions", Width: 192, Procs: []int{16, 8}[i%2], Reps: reps * 2, Name: fmt.Sprintf("conditions-more/%d", i)}
 		cs = append(cs, fw.MkCase("conditions", &cc))
 	}
 	return fw.Number(cs)
